@@ -72,8 +72,9 @@ func Harness_C14_Artifact() {
 		db := dkv.Open(dkv.DBOptions{FileSystem: mem.WithWorkingDir(dir), MemTableSize: 20, TargetFileSize: 64, L0TableNumCompactionTrigger: 2}, nil)
 		vals := make([][]byte, len(verifSPKeys))
 		// how much of the state has reached tables: 0 = WAL only, 1 = one flush, 2 = flushes + compaction
-		depth := verif.Choose("depth", 3)
-		writes := []int{1, 3, 5}[depth]
+		// (an even number of writes leaves nothing unflushed: the WAL has nothing to replay)
+		depth := verif.Choose("depth", 5)
+		writes := []int{1, 3, 5, 2, 4}[depth]
 		for w := 0; w < writes; w++ {
 			i := w % len(verifSPKeys)
 			vals[i] = verif.Bytes("v", 1)
